@@ -411,6 +411,121 @@ func (w *world) step(st State, prev State) (string, error) {
 	return "", nil
 }
 
+// probeBlocked: while the unlock replays its buffer (it owns eventBufLock), the specification says that the
+// handler's buffer section and every reader are blocked. Release them anyway and see that they do not move.
+func (w *world) probeBlocked(st State) string {
+	if fmt.Sprint(st["epc"]) != "replay" {
+		return ""
+	}
+	hpc := fmt.Sprint(st["hpc"])
+	if (hpc == "decide" || hpc == "append") && w.handler != nil && !w.handler.InFlight && !w.handler.Done {
+		if g := w.s.Probe(w.handler, 2*time.Millisecond); g != "BLOCKED" {
+			return fmt.Sprintf("the handler went on to %s while enableKubeEventCb was replaying its buffer", g)
+		}
+	}
+	for r, pc := range st["rpc"].(map[string]interface{}) {
+		p := w.readers[r]
+		if (fmt.Sprint(pc) == "want" || fmt.Sprint(pc) == "reset") && p != nil && !p.InFlight && !p.Done {
+			if g := w.s.Probe(p, 2*time.Millisecond); g != "BLOCKED" {
+				return fmt.Sprintf("reader %s went on to %s while enableKubeEventCb was replaying its buffer", r, g)
+			}
+		}
+	}
+	return ""
+}
+
+// finishFree drives every process to its end (consuming the channel whenever something is in it) and hands the
+// remaining watch events to the handler one after the other.
+func (w *world) finishFree() {
+	consume := func() {
+		for len(w.ch) > 0 {
+			e := w.ch[0]
+			w.ch = w.ch[1:]
+			w.deliv = append(w.deliv, e)
+			for k, idx := range w.cbSeq {
+				if idx >= 0 && !w.firedDeliv[idx] && w.fired[idx] == e {
+					w.firedDeliv[idx] = true
+					w.cbSeq[k] = -2
+					break
+				}
+			}
+		}
+	}
+	old := w.s.Timeout
+	w.s.Timeout = 20 * time.Millisecond
+	defer func() { w.s.Timeout = old }()
+	for round := 0; round < 200; round++ {
+		progress := false
+		for _, p := range w.procs {
+			if p.Done {
+				continue
+			}
+			g := w.s.Step(p)
+			if g != "UNSTEERABLE" {
+				progress = true
+			}
+			consume()
+		}
+		alive := false
+		for _, p := range w.procs {
+			if !p.Done {
+				alive = true
+			}
+		}
+		if !alive {
+			if len(w.pending) == 0 {
+				break
+			}
+			e := w.pending[0]
+			w.pending = w.pending[1:]
+			last := ""
+			if e.T == "D" {
+				c, _, _ := w.realState()
+				last = c[e.O]
+			}
+			nFired := 0
+			_, bufB, _ := w.realState()
+			cbB := len(w.cbSeq)
+			h := w.s.Spawn("handler", func() {
+				switch e.T {
+				case "A":
+					w.inf.OnAdd(mkObj(e.O, e.V, e.RV))
+				case "M":
+					w.inf.OnUpdate(mkObj(e.O, e.V, e.RV))
+				case "D":
+					w.inf.OnDelete(mkObj(e.O, last, e.RV))
+				}
+			})
+			w.procs = append(w.procs, h)
+			// whether it fires is observed afterwards (buffer grew or callback called)
+			w.fired = append(w.fired, e)
+			w.firedAfter = append(w.firedAfter, true)
+			w.firedDeliv = append(w.firedDeliv, false)
+			w.lostCause = append(w.lostCause, "")
+			for k := 0; k < 10 && !h.Done; k++ {
+				w.s.Step(h)
+				consume()
+			}
+			_, bufA, _ := w.realState()
+			if len(bufA) == len(bufB) && len(w.cbSeq) == cbB {
+				// did not fire: forget it
+				w.fired = w.fired[:len(w.fired)-1]
+				w.firedAfter = w.firedAfter[:len(w.firedAfter)-1]
+				w.firedDeliv = w.firedDeliv[:len(w.firedDeliv)-1]
+				w.lostCause = w.lostCause[:len(w.lostCause)-1]
+			} else if len(bufA) > len(bufB) {
+				w.bufIdx = append(w.bufIdx, len(w.fired)-1)
+			}
+			_ = nFired
+			progress = true
+		}
+		if !progress {
+			break
+		}
+	}
+	consume()
+}
+
 func (w *world) compare(st State) (string, string) {
 	cache, buf, enabled := w.realState()
 	wantCache := map[string]string{}
@@ -551,6 +666,7 @@ func replayCase(n int, c Case, ms *metric_storage.MetricStorage) Result {
 		w.s.Abandon(w.procs...)
 	}()
 	diverged := false
+	forcedQuiet := false
 	for i := 1; i < len(steps); i++ {
 		res.Steps = i
 		sig, err := w.step(steps[i], steps[i-1])
@@ -558,6 +674,16 @@ func replayCase(n int, c Case, ms *metric_storage.MetricStorage) Result {
 			res.OK = false
 			res.Sig, res.Detail, res.BadStep = sig, fmt.Sprintf("%v (action %v)", err, steps[i]["act"]), i
 			diverged = true
+			break
+		}
+		if esc := w.probeBlocked(steps[i]); esc != "" {
+			// a goroutine went ahead although the unlock holds eventBufLock across its replay: the mutual exclusion
+			// the protocol relies on is gone. Let everything run to the end and judge what the hook would have seen.
+			w.finishFree()
+			res.OK = false
+			res.Sig, res.Detail, res.BadStep = "DIV/lock-not-held", esc, i
+			diverged = true
+			forcedQuiet = true
 			break
 		}
 		if what, d := w.compare(steps[i]); what != "" {
@@ -571,7 +697,7 @@ func replayCase(n int, c Case, ms *metric_storage.MetricStorage) Result {
 		}
 	}
 	res.Fired = len(w.fired)
-	quiet := !diverged && specQuiet(steps[len(steps)-1])
+	quiet := (!diverged && specQuiet(steps[len(steps)-1])) || forcedQuiet
 	res.Quiet = quiet
 	sigs, details := w.oracle(eventTypes, quiet)
 	if len(sigs) > 0 {
@@ -598,11 +724,21 @@ func main() {
 	fs := flag.NewFlagSet("ki", flag.ExitOnError)
 	in := fs.String("in", "", "")
 	out := fs.String("out", "", "")
-	if len(os.Args) < 2 || os.Args[1] != "replay" {
-		fmt.Fprintln(os.Stderr, "usage: ki replay -in f -out f")
+	runs := fs.Int("n", 50, "")
+	seed := fs.Int64("seed", 1, "")
+	if len(os.Args) < 2 || (os.Args[1] != "replay" && os.Args[1] != "stress") {
+		fmt.Fprintln(os.Stderr, "usage: ki replay -in f -out f | ki stress -out f -n N -seed S")
 		os.Exit(2)
 	}
 	fs.Parse(os.Args[2:])
+	if os.Args[1] == "stress" {
+		log.SetDefault(log.NewNop())
+		if err := cmdStress(*out, *runs, *seed); err != nil {
+			fmt.Fprintln(os.Stderr, "ki stress:", err)
+			os.Exit(2)
+		}
+		return
+	}
 	f, err := os.Open(*in)
 	if err != nil {
 		fmt.Fprintln(os.Stderr, err)
